@@ -72,18 +72,18 @@ def mk_elem(rng, depth, k, plain=False):
             'wrap': rng.choice([None, None, None, 'define', 'omit', 'condition', 'translate'] + ([] if plain else ['macro'])), 'kids': kids}
 
 
-def to_src(n, defs=None):
+def to_src(n, defs=None, lib=False):
     if defs is None:
         defs = []
     if n['t'] == 'use':
         # the handler sits on an element *inside* the macro (tal:on-error on the defining element itself is not part of the macro: D-09d)
         oe = ' tal:on-error="string:%s"' % n['fb'] if n['macro_onerror'] else ''
         defs.append('<p metal:define-macro="%s"><span%s>M[<b metal:define-slot="s">D</b>]</span></p>' % (n['name'], oe))
-        return '<x metal:use-macro="macros[\'%s\']"><u metal:fill-slot="s">%s</u></x>' % (n['name'], ''.join(to_src(c, defs) for c in n['kids']))
+        return '<x metal:use-macro="%smacros[\'%s\']"><u metal:fill-slot="s">%s</u></x>' % ('lib.' if lib else '', n['name'], ''.join(to_src(c, defs, lib) for c in n['kids']))
     if n['t'] == 'text':
         return n['s']
     if n['t'] == 'switch':
-        return '<div tal:switch="\'%s\'">%s</div>' % (n['value'], ''.join(to_src(c, defs) for c in n['kids']))
+        return '<div tal:switch="\'%s\'">%s</div>' % (n['value'], ''.join(to_src(c, defs, lib) for c in n['kids']))
     if n['t'] == 'val':
         return "${R('%s', '%s')}" % (n['key'], n['s'])
     if n['t'] == 'boom':
@@ -105,7 +105,7 @@ def to_src(n, defs=None):
         a += ' i18n:translate=""'
     elif n['wrap'] == 'macro':
         a += ' metal:define-macro="d%s"' % n['fb']
-    return '<%s%s>%s</%s>' % (n['tag'], a, ''.join(to_src(c, defs) for c in n['kids']), n['tag'])
+    return '<%s%s>%s</%s>' % (n['tag'], a, ''.join(to_src(c, defs, lib) for c in n['kids']), n['tag'])
 
 
 class Raised(Exception):
@@ -182,14 +182,25 @@ def constructive_cases(ctx, n):
         tree = {'t': 'elem', 'tag': 'section', 'attrs': [], 'onerror': ctx.rng.random() < 0.3, 'fb': 'TOP', 'structure': False,
                 'wrap': None, 'kids': [gen_tree(ctx.rng, ctx.rng.choice([1, 2, 3, 4]), k) for _ in range(ctx.rng.choice([1, 2, 3]))]}
         defs = []
-        body = to_src(tree, defs)
-        src = ('<tal:block condition="False">%s</tal:block>' % ''.join(defs) if defs else '') + pre + body + post
+        # the macros may live in another template object (created without an on_error_handler of its own: the handler that is
+        # called is the rendered template's)
+        uselib = ctx.rng.random() < 0.4
+        body = to_src(tree, defs, uselib)
+        if uselib and defs:
+            src = pre + body + post
+        else:
+            uselib = False
+            src = ('<tal:block condition="False">%s</tal:block>' % ''.join(defs) if defs else '') + pre + body + post
         st = {'log': [], 'handled': 0, 'nontrivial': False}
         try:
             exp = {'out': pre + expected(tree, st) + post, 'log': st['log'], 'handled': st['handled']}
         except Raised as e:
             exp = {'exc': e.cls, 'key': e.key, 'log': st['log']}
-        out.append(({'src': src, 'vars': [['R', {'fn': 'R'}]], 'objs': []}, exp, st['nontrivial']))
+        case = {'src': src, 'vars': [['R', {'fn': 'R'}]], 'objs': []}
+        if uselib:
+            case['vars'] = case['vars'] + [['lib', {'template': 1}]]
+            case['libs'] = ['<html>%s</html>' % ''.join(defs)]
+        out.append((case, exp, st['nontrivial']))
     return out
 
 
